@@ -539,6 +539,170 @@ def parse_key_function(src, name, version_const):
     return shape, time_gate
 
 
+# ---------------------------------------------------------------- detect_c_compiler: compiler_id -> (compiler, plusplus)
+
+def split_top(text, sep):
+    """split at `sep` outside (), [], {} and string literals"""
+    out, cur, depth, i = [], [], 0, 0
+    while i < len(text):
+        c = text[i]
+        if c == '"':
+            j = skip_string(text, i)
+            cur.append(text[i:j])
+            i = j
+            continue
+        if c in '([{':
+            depth += 1
+        elif c in ')]}':
+            depth -= 1
+        if depth == 0 and text.startswith(sep, i):
+            out.append(''.join(cur))
+            cur = []
+            i += len(sep)
+            continue
+        cur.append(c)
+        i += 1
+    out.append(''.join(cur))
+    return out
+
+
+def eval_kind_expr(expr, kind, lets, depth=0):
+    """Evaluate a boolean Rust expression over the string `kind` (normalised text)."""
+    e = expr.strip()
+    if depth > 8:
+        raise Unrecognised('expression nests too deeply: %r' % expr)
+    while e.startswith('(') and match_close(e, 0, '(', ')') == len(e) - 1:
+        e = e[1:-1]
+    parts = split_top(e, '||')
+    if len(parts) > 1:
+        return any(eval_kind_expr(x, kind, lets, depth + 1) for x in parts)
+    parts = split_top(e, '&&')
+    if len(parts) > 1:
+        return all(eval_kind_expr(x, kind, lets, depth + 1) for x in parts)
+    if e in ('true', 'false'):
+        return e == 'true'
+    if e.startswith('!') and not e.startswith('!='):
+        return not eval_kind_expr(e[1:], kind, lets, depth + 1)
+    m = re.fullmatch(r'kind\.(ends_with|starts_with|contains)\(("(?:\\.|[^"\\])*")\)', e)
+    if m:
+        lit = rust_bytes_literal(m.group(2)).decode()
+        return {'ends_with': kind.endswith, 'starts_with': kind.startswith, 'contains': lambda x: x in kind}[m.group(1)](lit)
+    m = re.fullmatch(r'kind(==|!=)("(?:\\.|[^"\\])*")', e)
+    if m:
+        return (kind == rust_bytes_literal(m.group(2)).decode()) == (m.group(1) == '==')
+    m = re.fullmatch(r'matches!\(kind,(.*)\)', e)
+    if m:
+        alts = [rust_bytes_literal(a).decode() for a in split_top(m.group(1), '|')]
+        return kind in alts
+    if re.fullmatch(ID, e) and e in lets:
+        return eval_kind_expr(lets[e], kind, lets, depth + 1)
+    raise Unrecognised('detect_c_compiler: cannot evaluate %r' % expr)
+
+
+def plusplus_fields(repo):
+    """struct name -> 'true' | 'false' | field name, from `impl CCompilerImpl for X { fn plusplus(&self) -> bool {..} }`"""
+    out = {}
+    d = os.path.join(repo, 'src', 'compiler')
+    for fn in sorted(os.listdir(d)):
+        if not fn.endswith('.rs'):
+            continue
+        raw = read(repo, os.path.join('src', 'compiler', fn))
+        for m in re.finditer(r'^impl\s+CCompilerImpl\s+for\s+(%s)\s*\{' % ID, raw, re.M):
+            txt = item_at(raw, r'^impl\s+CCompilerImpl\s+for\s+%s\s*\{' % m.group(1), 'impl CCompilerImpl for ' + m.group(1))
+            f = re.search(r'fn\s+plusplus\s*\(\s*&self\s*\)\s*->\s*bool\s*\{', txt)
+            if not f:
+                raise Unrecognised('impl CCompilerImpl for %s: no plusplus()' % m.group(1))
+            c = match_close(txt, f.end() - 1, '{', '}')
+            body = norm(txt[f.end():c])
+            mm = re.fullmatch(r'(true|false)|self\.(%s)' % ID, body)
+            if not mm:
+                raise Unrecognised('%s::plusplus(): body %r' % (m.group(1), body))
+            out[m.group(1)] = mm.group(1) or mm.group(2)
+    return out
+
+
+def driver_table(repo):
+    """-> (script_ids, [(kind, compiler struct, plusplus, carries the reported version)]) from `detect_c_compiler`: what `plusplus()` (the byte that
+    hash_key mixes in as C-vs-C++ driver mode) will be for every `compiler_id=` the detection script can print."""
+    raw = read(repo, 'src/compiler/compiler.rs')
+    txt = item_at(raw, r'^async\s+fn\s+detect_c_compiler\b', 'fn detect_c_compiler')
+    ids = re.findall(r'^compiler_id=([A-Za-z0-9_+.\-]+)\s*$', txt, re.M)
+    if len(ids) < 4 or len(set(ids)) != len(ids):
+        raise Unrecognised('detect_c_compiler: detection script ids %r' % ids)
+    fields = plusplus_fields(repo)
+    k = txt.find('if let Some(kind)')
+    if k < 0:
+        raise Unrecognised('detect_c_compiler: `if let Some(kind) = ...` not found')
+    bo = txt.index('{', k)
+    blk = txt[bo + 1:match_close(txt, bo, '{', '}')]
+    stmts = split_statements(blk)
+    lets = {}
+    match_stmt = None
+    for st in stmts:
+        n = norm(st)
+        m = re.fullmatch(r'let (%s)(?::bool)?=(.*)' % ID, n, re.S)
+        if n.startswith('match kind{'):
+            match_stmt = n
+            break
+        if m:
+            lets[m.group(1)] = m.group(2)
+    if match_stmt is None:
+        raise Unrecognised('detect_c_compiler: `match kind { .. }` not found')
+    inner = match_stmt[len('match kind{'):-1]
+    table = []
+    pos = 0
+    while pos < len(inner):
+        if inner[pos] == ',':
+            pos += 1
+            continue
+        m = re.match(r'((?:"(?:\\.|[^"\\])*"\|?)+|_)=>', inner[pos:])
+        if not m:
+            raise Unrecognised('detect_c_compiler: match arm at %r' % inner[pos:pos + 60])
+        pos += m.end()
+        if inner[pos] == '{':
+            c = match_close(inner, pos, '{', '}')
+            body = inner[pos + 1:c]
+            pos = c + 1
+        else:
+            parts = split_top(inner[pos:], ',')
+            body = parts[0]
+            pos += len(body)
+        if m.group(1) == '_':
+            continue
+        kinds = [rust_bytes_literal(a).decode() for a in m.group(1).split('|') if a]
+        cm = re.search(r'CCompiler::new\((%s)(\{)?' % ID, body)
+        if not cm:
+            raise Unrecognised('detect_c_compiler: arm %r does not build a CCompiler' % kinds)
+        name = cm.group(1)
+        if name not in fields:
+            raise Unrecognised('detect_c_compiler: %s has no CCompilerImpl::plusplus' % name)
+        inits = {}
+        if cm.group(2):
+            o = cm.end() - 1
+            for f in split_top(body[o + 1:match_close(body, o, '{', '}')], ','):
+                if not f.strip():
+                    continue
+                fm = re.fullmatch(r'(%s)(?::(.*))?' % ID, f.strip(), re.S)
+                if not fm:
+                    raise Unrecognised('detect_c_compiler: field initialiser %r' % f)
+                inits[fm.group(1)] = fm.group(2) if fm.group(2) is not None else fm.group(1)
+        arm_lets = dict(lets)
+        for st in split_statements(body):
+            lm = re.fullmatch(r'let (%s)(?::bool)?=(.*)' % ID, norm(st), re.S)
+            if lm:
+                arm_lets[lm.group(1)] = lm.group(2)
+        for kd in kinds:
+            fld = fields[name]
+            if fld in ('true', 'false'):
+                pp = fld == 'true'
+            elif fld in inits:
+                pp = eval_kind_expr(inits[fld], kd, arm_lets)
+            else:
+                raise Unrecognised('detect_c_compiler: %s { .. } does not initialise %s' % (name, fld))
+            table.append((kd, name, pp, 'version' in inits))
+    return ids, table
+
+
 EXPECTED_ENV = [('EName', 'LP'), ('ELit', b'='), ('EVal', 'LP')]
 EXPECTED_SHAPE_C = [('CDigest',), ('CPlusplus',), ('CVersion',), ('CLang',), ('CArgs', 'LP'), ('CExtra',),
                     ('CEnv', EXPECTED_ENV), ('CPP',)]
@@ -586,6 +750,14 @@ def read_spec(repo, fallback=None):
     item('allow_main', lambda: env_allow_list(c), fallback.get('allow_main'))
     item('allow_pp', lambda: env_allow_list(p), fallback.get('allow_pp'))
     item('tags', lambda: language_table(k), fallback.get('tags'))
+    def drivers():
+        ids, table = driver_table(repo)
+        spec['script_ids'] = ids
+        return table
+
+    if fallback.get('drivers') is not None and fallback.get('script_ids') is not None:
+        spec['script_ids'] = fallback['script_ids']
+    item('drivers', drivers, fallback.get('drivers'))
     item('shape_c', shape_c, EXPECTED_SHAPE_C)
     item('shape_p', shape_p, EXPECTED_SHAPE_P)
     spec['time_gate'] = gate.get('g', True)
@@ -645,6 +817,13 @@ def emit(spec, gen_dir):
     L.append('|}.')
     L.append('')
     txt = '\n'.join(L)
+    txt += '\n(* detect_c_compiler: the `compiler_id=` values the detection script can print ... *)\n'
+    txt += 'Definition the_script_ids : list bytes := [\n' + ';\n'.join(
+        '  (* %s *) %s' % (i, coq_bytes(i.encode())) for i in spec['script_ids']) + '\n].\n'
+    txt += '\n(* ... and, per arm of `match kind`, the compiler it builds and the plusplus() that compiler will report *)\n'
+    txt += 'Definition the_drivers : list (bytes * bytes * bool) := [\n' + ';\n'.join(
+        '  (* %s => %s *) (%s, %s, %s)' % (k, n, coq_bytes(k.encode()), coq_bytes(n.encode()), 'true' if pp else 'false')
+        for k, n, pp, _ in spec['drivers']) + '\n].\n'
     write_if_changed(os.path.join(gen_dir, 'C02HashSpec.v'), txt)
     ok = '''(* GENERATED by translator/c02_hashspec.py -- the decidable side conditions the C02 theorems need of the
    source-derived data, each discharged by computation.  A failure here names the condition that the current
@@ -672,6 +851,11 @@ Proof. vm_compute; reflexivity. Qed.
 Lemma the_spec_required : required_ok the_spec = true.
 Proof. vm_compute; reflexivity. Qed.
 Lemma the_spec_time_gate : time_gate the_spec = true.
+Proof. vm_compute; reflexivity. Qed.
+
+(* C-vs-C++ driver mode at its source: every compiler_id that ends in "++" is handled and yields plusplus() = true,
+   every other one yields false *)
+Lemma the_drivers_ok : drivers_ok the_script_ids the_drivers = true.
 Proof. vm_compute; reflexivity. Qed.
 
 Lemma the_spec_good : spec_good the_spec.
